@@ -270,6 +270,7 @@ impl StateRanking for TRank {
             RankKind::Natural => self.0.score(a).cmp(&self.0.score(b)).then_with(|| a.mask.cmp(&b.mask)).then_with(|| a.bonus.cmp(&b.bonus)),
             RankKind::Reverse => b.mask.cmp(&a.mask).then_with(|| b.bonus.cmp(&a.bonus)),
             RankKind::Random(seed) => hash2(a, &seed).cmp(&hash2(b, &seed)),
+            RankKind::Flat => Ordering::Equal,
         }
     }
 }
